@@ -25,6 +25,7 @@ func c18Layouts(tier string) []c18Layout {
 	ls := []c18Layout{
 		{"memory shared, same cookie name", []world.FilterSpec{f("a", "", "", 0, 0), f("b", "", "", 0, 0)}},
 		{"memory shared, distinct prefixes", []world.FilterSpec{f("a", "pa", "", 0, 0), f("b", "pb", "", 0, 0)}},
+		{"memory shared, default name + prefix", []world.FilterSpec{f("a", "", "", 0, 0), f("b", "pb", "", 0, 0)}},
 		{"one redis, distinct prefixes, different timeouts", []world.FilterSpec{f("a", "pa", "r1", 3600, 600), f("b", "pb", "r1", 100, 50)}},
 		{"two redis servers, distinct prefixes", []world.FilterSpec{f("a", "pa", "r1", 3600, 0), f("b", "pb", "r2", 100, 0)}},
 		{"one redis server, two databases", []world.FilterSpec{f("a", "pa", "r1/0", 3600, 0), f("b", "pb", "r1/1", 100, 50)}},
